@@ -1222,6 +1222,17 @@ pub fn run_c20(ctx: &Ctx) -> i32 {
                 acc.count("cases");
                 check_c20(&hinted, depth, (fi, idx, 1), acc);
             }
+            // ... and with every package answering an empty hint list (no solvable is hinted)
+            let mut unhinted = case.clone();
+            for n in unhinted.u.names.iter_mut() {
+                if !n.missing {
+                    n.hint = Hint::Some(vec![]);
+                }
+            }
+            if unhinted.u != case.u {
+                acc.count("cases");
+                check_c20(&unhinted, depth.min(2), (fi, idx, 5), acc);
+            }
             if !case.u.unions.is_empty() {
                 check_c20_async_union(case, (fi, idx, 2), acc);
             }
